@@ -86,6 +86,13 @@ func Run(t *testing.T, seed uint64, prof *Profile, replay []core.Cmd, keepLog bo
 			w.main(replay)
 		})
 	}()
+	if prof.Prop == "C06" {
+		// with several instances, append-only history and complete storage are
+		// part of C06's statement
+		for _, q := range []string{"C01", "C02", "C03", "C04"} {
+			sim.Reattribute(0, q, "C06")
+		}
+	}
 	prof.raw = nil
 	pj, _ := json.Marshal(prof)
 	lastTrace = sim.Trace
@@ -248,6 +255,7 @@ func (w *World) quiesce() {
 	}
 	w.orc.checkAcks()
 	w.orc.checkPools()
+	w.orc.checkStops()
 	for _, in := range w.insts {
 		if in.justLoaded {
 			in.justLoaded = false
@@ -301,7 +309,11 @@ func (w *World) enabled() []core.WCmd {
 	}
 	parked := w.liveParked()
 	for _, op := range parked {
-		add(100, core.Cmd{A: "rel", Op: op.ID, Out: core.OutOK})
+		okw := 100
+		if w.insts[op.Inst].slow {
+			okw = 2 // a slow node: its operations stay in flight for a long time
+		}
+		add(okw, core.Cmd{A: "rel", Op: op.ID, Out: core.OutOK})
 		if p.OpErrW > 0 {
 			add(p.OpErrW, core.Cmd{A: "rel", Op: op.ID, Out: core.OutErrNot})
 			if op.Mut {
@@ -311,6 +323,13 @@ func (w *World) enabled() []core.WCmd {
 	}
 	anyLog := false
 	for _, in := range w.insts {
+		if p.SlowW > 0 && (in.state == stRunning || in.state == stLoading) {
+			if !in.slow {
+				add(p.SlowW, core.Cmd{A: "slow", I: in.idx})
+			} else {
+				add(p.SlowW, core.Cmd{A: "fast", I: in.idx})
+			}
+		}
 		switch in.state {
 		case stDown:
 			if in.idx > 0 {
@@ -329,7 +348,7 @@ func (w *World) enabled() []core.WCmd {
 				if pend > 0 {
 					wt = 45
 				}
-				if len(parked) > 0 && p.StallW == 0 {
+				if len(parked) > 0 && p.StallW == 0 && p.SlowW == 0 && p.Instances == 1 {
 					wt = 0 // fault-free: time does not pass while operations are in flight
 				}
 				add(wt, core.Cmd{A: "tick", I: in.idx})
@@ -508,6 +527,14 @@ func (w *World) exec(c core.Cmd) bool {
 		in.seqCancel()
 		w.sim.Probe("stop")
 		return true
+	case "slow", "fast":
+		in := w.inst(c.I)
+		if in == nil || in.slow == (c.A == "slow") {
+			return false
+		}
+		in.slow = c.A == "slow"
+		w.sim.Probe("fault." + c.A)
+		return true
 	case "clock-back":
 		w.clock.offsetMs -= c.N
 		w.sim.Probe("fault.clock")
@@ -571,6 +598,7 @@ func (w *World) doSubmit(in *Instance, it *Item, low bool, c core.Cmd) *Submissi
 		restore()
 	}
 	s.PoolLenAfter, s.LowAfter = poolInfo(in.log)
+	w.orc.checkAdmission(in, s)
 	return s
 }
 
@@ -639,10 +667,11 @@ func (w *World) epilogue() {
 			w.crashes--
 		}
 	}
-	if w.orc.expectRefusal() {
-		w.epilogueRefusal(primary)
+	if w.pastSunset() {
+		w.epilogueSunset(primary)
 		return
 	}
+	strict := !w.orc.tampered
 	fresh := w.freshItem()
 	var freshSub *Submission
 	freshTries := 0
@@ -657,6 +686,13 @@ func (w *World) epilogue() {
 	for iter := 0; ; iter++ {
 		synctest.Wait()
 		w.quiesce()
+		if !strict && iter > 60 {
+			break
+		}
+		if w.pastSunset() {
+			w.epilogueSunset(primary)
+			return
+		}
 		if iter > 400 {
 			w.orc.v(p.livenessProp(), "no-progress", "log did not recover and sequence a fresh entry within 400 scheduler steps after faults stopped (state %s)", primary.state)
 			break
@@ -674,12 +710,27 @@ func (w *World) epilogue() {
 			w.orc.v("C03", "load-hung", "LoadLog neither returned nor issued an operation")
 			return
 		case stRefused:
+			if !strict && primary.inc >= epiInc {
+				sim.Probe("tamper.refused")
+				w.orc.finalChecks()
+				return
+			}
 			if primary.inc >= epiInc {
+				if w.orc.staleRegress && p.DiscardDeletes && strings.Contains(fmt.Sprint(primary.loadErr), "couldn't fetch staged uploads") {
+					sim.ViolateSig("C03", "reload-failed", "stale-instance-publish",
+						"restart failed after a stale instance re-published an older checkpoint and the newer round's staging bundle was already discarded: %v", primary.loadErr)
+					return
+				}
 				w.orc.v("C03", "reload-failed", "restart with the same configuration failed after faults stopped: %v", primary.loadErr)
 				return
 			}
 			fallthrough
 		case stCrashed, stStopped, stDown:
+			if restarts > 3 && !strict {
+				sim.Probe("tamper.stopped")
+				w.orc.finalChecks()
+				return
+			}
 			if restarts > 3 {
 				w.orc.v("C03", "restart-loop", "log keeps stopping after faults stopped: %v", primary.seqErr)
 				return
@@ -708,6 +759,10 @@ func (w *World) epilogue() {
 		}
 		break
 	}
+	if !strict {
+		w.orc.finalChecks()
+		return
+	}
 	if freshSub != nil && freshSub.Done && freshSub.Err != nil {
 		if freshSub.Inc == primary.inc {
 			w.orc.v(p.livenessProp(), "fresh-entry-failed", "fresh entry was refused after faults stopped: %v", freshSub.Err)
@@ -724,6 +779,9 @@ func (w *World) epilogue() {
 		}
 	}
 	w.orc.finalChecks()
+	if p.Prop == "C06" {
+		w.refusalProbes(primary)
+	}
 }
 
 func (w *World) unfinished(in *Instance) int {
